@@ -3,7 +3,7 @@
    Statements only; proofs in Proofs/C04_RunnerPipe.v and Proofs/C04_Spec.v; model in Model/RunnerPipe.v. *)
 From Coq Require Import List NArith Bool Arith.
 Import ListNotations.
-From RV Require Import Model.RunnerPipe Proofs.C04_RunnerPipe Proofs.C04_Spec.
+From RV Require Import Model.RunnerPipe Proofs.C04_RunnerPipe Proofs.C04_Spec Proofs.C04_ReorderAdapter.
 
 (* For every key-by function, every reorder stage that emits one result per input in input order (C20), every
    router, operator count, MaxSize, time-out setting, input (records of any splits, markers anywhere) and EVERY
@@ -70,6 +70,31 @@ Proof.
   eapply delivered_exact; eauto. apply batched_stage_inorder.
 Qed.
 Print Assumptions delivery_exact_ordered_batched.
+
+(* The assumption is discharged for C20's thread-level model of the repaired batching.ReorderFetcher (adder thread,
+   time-out goroutine, timer expiries, one fetch goroutine per batch completing in any order, drains; any MaxSize,
+   delay and buffer size): Model/Reorder.v with rp_fixed = true, through C20's invariant. *)
+Theorem reorder_stage_in_order :
+  forall (kb : N -> list kev) (p : Model.Reorder.rparams),
+    Model.Reorder.rp_fixed p = true -> rs_inorder kb (reorder_stage kb p).
+Proof. exact reorder_stage_inorder. Qed.
+Print Assumptions reorder_stage_in_order.
+
+(* ... hence, unconditionally, for the whole pipeline with the thread-level reorder fetcher in it *)
+Theorem delivery_exact_ordered_reorder :
+  forall (kb : N -> list kev) (p : Model.Reorder.rparams) route nops mx delay input sched s,
+    Model.Reorder.rp_fixed p = true ->
+    let R := reorder_stage kb p in
+    run R route nops mx delay (init R input) sched = Some s ->
+    (forall i, i < nops -> exists rest, expected kb route input i = delivered R s i ++ rest) /\
+    (drained R nops s = true -> forall i, i < nops -> delivered R s i = expected kb route input i).
+Proof.
+  intros kb p route nops mx delay input sched s Hp R Hr.
+  pose proof (reorder_stage_inorder kb p Hp) as Hin. split.
+  - intros i Hi. eexists. eapply delivered_prefix; eauto.
+  - intros Hd i Hi. eapply delivered_exact; eauto.
+Qed.
+Print Assumptions delivery_exact_ordered_reorder.
 
 (* With MaxDelay = 0 and a source channel that is never closed, a partial last batch is never delivered: a reachable
    state in which no action is enabled and a record read has not reached its operator (finding, code 100). *)
